@@ -1,4 +1,5 @@
-import SlugModel.Lemmas.TransEq
+import SlugModel.Lemmas.TrEq_isWithin
+import SlugModel.Lemmas.TrEq_validSymlink
 /-!
 # C01 (tie by translation)
 
